@@ -251,6 +251,20 @@ Proof.
     + consts; lia.
 Qed.
 
+Lemma contrib_exact_all s th t e : is_dur th -> min64 <= elapsed s t ->
+  fst (contrib s th (t, e)) = Z.max 0 (capped (remaining s th t)).
+Proof.
+  unfold is_dur. intros Hth Hel. unfold contrib, capped, remaining, sat64. cbn [fst snd].
+  set (D := elapsed s t) in *.
+  destruct (Z.ltb_spec D min64) as [L1|L1]; [lia|].
+  destruct (Z.ltb_spec max64 D) as [L2|L2].
+  - replace (max64 <? th) with false by (consts; lia). consts; lia.
+  - destruct (Z.ltb_spec D th) as [L3|L3].
+    + destruct (Z.ltb_spec (th - D) min64); [consts; lia|].
+      destruct (Z.ltb_spec max64 (th - D)); consts; lia.
+    + consts; lia.
+Qed.
+
 Lemma contrib_nonneg_th s th t e : 0 <= th <= max64 ->
   fst (contrib s th (t, e)) = Z.max 0 (capped (remaining s th t)).
 Proof.
@@ -515,40 +529,100 @@ Proof. unfold werr_eqb. destruct a, b; cbn; split; intros; try reflexivity; try 
 Lemma werr_eqb_refl a : werr_eqb a a = true.
 Proof. apply werr_eqb_eq. reflexivity. Qed.
 
-Theorem answer_ok_model s th : wf_status s -> min64 < th <= max64 ->
-  answer_ok s th (synced_to_emit s th) = true.
+(* --- exactness on the whole domain where the code can know the distances: any threshold when no
+   stamp is more than 2^63 ns ahead of now; any stamps when the threshold is >= 0 *)
+Theorem synced_exact_unsat s th : wf_status s -> is_dur th ->
+  (forall t, In t (five s) -> min64 <= elapsed s t) ->
+  synced_to_emit s th = expected s th.
 Proof.
-  intros Hwf Hth. unfold answer_ok.
-  destruct (Z.leb_spec 0 th) as [L|L].
-  - rewrite synced_exact by (try assumption; lia). rewrite Z.eqb_refl, werr_eqb_refl. reflexivity.
-  - pose proof (emit_iff s th Hwf Hth) as HE.
-    assert (Hdec : Bool.eqb (werr_eqb (snd (synced_to_emit s th)) NoErr) (may_emit_b s th) = true).
-    { apply eqb_true_iff. apply eq_true_iff_eq. rewrite werr_eqb_eq, may_emit_b_spec. exact HE. }
-    rewrite Hdec. cbn [andb].
-    destruct (Z.eqb_spec (peers s) 0) as [P|P].
-    { rewrite no_peers by exact P. reflexivity. }
-    destruct (Z.eqb_spec (ns (synced s)) 0) as [S|S].
-    { rewrite not_synced by assumption. reflexivity. }
-    destruct (werr_eqb (snd (synced_to_emit s th)) NoErr) eqn:EN.
-    + (* permitted: the wait is 0 *)
-      apply werr_eqb_eq in EN.
-      assert (Hd : is_dur th) by (unfold is_dur; lia).
-      rewrite (synced_shape s th Hwf Hd) in *.
-      destruct (Z.eqb_spec (peers s) 0); [contradiction|].
-      destruct (Z.eqb_spec (ns (synced s)) 0); [contradiction|].
-      cbv zeta in *. cbn [fst snd] in *.
-      destruct (Z.ltb_spec 0 (max0 (map fst (contribs s th)))) as [Lw|Lw].
-      * exfalso. revert EN. apply first_eq_not_noerr; [exact Lw | reflexivity | apply stamps_errs].
-      * pose proof (max0_nonneg (map fst (contribs s th))). lia.
-    + assert (Hne : ~ may_emit s th).
-      { intro Hm. apply HE in Hm. apply werr_eqb_eq in Hm. congruence. }
-      destruct (wait_bounds s th Hwf Hth P S Hne) as [[B1 B2] B3].
-      replace (0 <? fst (synced_to_emit s th)) with true by lia.
-      replace (fst (synced_to_emit s th) <=? capped (longest s th)) with true by lia. cbn [andb].
-      destruct (forallb (fun t => min64 <=? elapsed s t) (five s)) eqn:EF; [|reflexivity].
-      rewrite forallb_forall in EF.
-      destruct B3 as [B4 B5]. { intros t Ht. apply Z.leb_le. apply EF. exact Ht. }
-      rewrite B4, B5, Z.eqb_refl, werr_eqb_refl. reflexivity.
+  intros Hwf Hd Hall.
+  rewrite (synced_shape s th Hwf Hd). unfold expected.
+  destruct (peers s =? 0); [reflexivity|]. destruct (ns (synced s) =? 0); [reflexivity|].
+  cbv zeta.
+  assert (Hc : forall te, In te (stamps s) ->
+            fst (contrib s th te) = Z.max 0 (capped (remaining s th (fst te)))).
+  { intros [t e] Hin. cbn [fst]. apply contrib_exact_all; [exact Hd|]. apply Hall.
+    rewrite five_stamps. apply (in_map fst _ _ Hin). }
+  assert (HW : max0 (map fst (contribs s th)) = fcap (longest s th)).
+  { rewrite contribs_fst, fcap_longest. apply max0_ext. intros te Hin. unfold fcap. apply Hc. exact Hin. }
+  rewrite HW. unfold fcap. destruct (Z.leb_spec (longest s th) 0) as [L|L].
+  - replace (Z.max 0 (capped (longest s th))) with 0 by (unfold capped; consts; lia). reflexivity.
+  - assert (Hpos : 0 < capped (longest s th)) by (unfold capped; consts; lia).
+    rewrite Z.max_r by lia. replace (0 <? capped (longest s th)) with true by lia.
+    f_equal. unfold contribs. apply first_eq_first_with; [exact Hpos | exact Hc].
+Qed.
+
+Lemma saturated_b_false s :
+  saturated_b s = false <-> (forall t, In t (five s) -> min64 <= elapsed s t).
+Proof.
+  unfold saturated_b. rewrite negb_false_iff, forallb_forall. split; intros H t Ht.
+  - apply Z.leb_le. apply H. exact Ht.
+  - apply Z.leb_le. apply H. exact Ht.
+Qed.
+
+Theorem synced_exact_domain s th : wf_status s -> is_dur th ->
+  0 <= th \/ saturated_b s = false ->
+  synced_to_emit s th = expected s th.
+Proof.
+  intros Hwf Hd [H|H].
+  - apply synced_exact; [exact Hwf | unfold is_dur in Hd; lia].
+  - apply synced_exact_unsat; [exact Hwf | exact Hd | apply saturated_b_false; exact H].
+Qed.
+
+Lemma answer_ok_iff s th a : answer_ok s th a = true <-> a = expected s th.
+Proof.
+  unfold answer_ok. rewrite andb_true_iff, Z.eqb_eq, werr_eqb_eq. destruct a as [w e].
+  destruct (expected s th) as [w' e']. cbn. split; [intros [-> ->]; reflexivity | intros H; inversion H; tauto].
+Qed.
+
+Theorem answer_ok_model s th : wf_status s -> is_dur th ->
+  0 <= th \/ saturated_b s = false ->
+  answer_ok s th (synced_to_emit s th) = true.
+Proof. intros Hwf Hd Hdom. apply answer_ok_iff. apply synced_exact_domain; assumption. Qed.
+
+(* --- DetectParallelInstance on its whole exact domain *)
+Theorem parallel_iff_domain s th : wf_status s -> is_dur th ->
+  min64 < th \/ min64 <= elapsed s (created s) ->
+  (detect_parallel s th = true <-> parallel s th).
+Proof.
+  intros Hwf Hd Hdom. pose proof Hwf as [Hn [Hst [_ [_ [_ [Hcr _]]]]]].
+  unfold is_dur in Hd. unfold detect_parallel, parallel.
+  rewrite (before_ns _ _ Hcr Hst), (since_sat s _ Hn Hcr).
+  unfold sat64. set (D := elapsed s (created s)) in *.
+  destruct (Z.ltb_spec (ns (created s)) (ns (startup s))) as [B|B]; [split; [discriminate | lia]|].
+  destruct (Z.ltb_spec D min64); [consts; lia|].
+  destruct (Z.ltb_spec max64 D); consts; lia.
+Qed.
+
+(* --- what the code does at threshold = MinInt64: no Since(t) is smaller, no guard ever fires *)
+Theorem min_threshold_emits s : wf_status s -> peers s <> 0 -> ns (synced s) <> 0 ->
+  synced_to_emit s min64 = (0, NoErr).
+Proof.
+  intros Hwf P S. assert (Hd : is_dur min64) by (unfold is_dur; consts; lia).
+  rewrite (synced_shape s min64 Hwf Hd).
+  destruct (Z.eqb_spec (peers s) 0); [contradiction|].
+  destruct (Z.eqb_spec (ns (synced s)) 0); [contradiction|].
+  cbv zeta.
+  assert (HW : max0 (map fst (contribs s min64)) = 0).
+  { rewrite contribs_fst.
+    assert (Hle : max0 (map (fun te => fst (contrib s min64 te)) (stamps s))
+                  <= max0 (map (fun _ : gtime * werr => 0) (stamps s))).
+    { apply max0_le_pointwise. intros te _. unfold contrib. cbn [fst].
+      pose proof (sat64_range (elapsed s (fst te))) as Hr.
+      replace (sat64 (elapsed s (fst te)) <? min64) with false by lia. lia. }
+    pose proof (max0_nonneg (map (fun te => fst (contrib s min64 te)) (stamps s))) as Hnn.
+    assert (Hz : forall (l : list (gtime * werr)), max0 (map (fun _ => 0) l) = 0).
+    { induction l as [|a l IHl]; [reflexivity|]. cbn [map max0 fold_right]. fold (max0 (map (fun _ : gtime * werr => 0) l)).
+      rewrite IHl. reflexivity. }
+    rewrite Hz in Hle. lia. }
+  rewrite HW. reflexivity.
+Qed.
+
+Theorem min_threshold_no_parallel s : wf_status s -> detect_parallel s min64 = false.
+Proof.
+  intros Hwf. pose proof Hwf as [Hn [_ [_ [_ [_ [Hcr _]]]]]].
+  unfold detect_parallel. destruct (go_before (created s) (startup s)); [reflexivity|].
+  rewrite (since_sat s _ Hn Hcr). pose proof (sat64_range (elapsed s (created s))). lia.
 Qed.
 
 (* ------------------------------------------------------------------ Part 4: the pinned code *)
@@ -586,20 +660,53 @@ Example synced_to_emit_old_refuted_large_threshold :
   synced_to_emit s 4611686018427387904 = (max64, ErrSelfEventsOngoing).
 Proof. split; vm_compute; reflexivity. Qed.
 
-(* ------------------------------------------------------------------ the residue for thresholds < 0
-   (repaired code; see design-notes/C21.md).  With a negative threshold and a stamp more than 2^63 ns
-   ahead of Now, Time.Sub has saturated and the wait is  th + 2^63 : positive, but below the capped
-   longest remaining time (here MaxInt64).  wait_bounds is tight. *)
+(* ------------------------------------------------------------------ the residue (repaired code)
+   A stamp more than 2^63 ns ahead of Now makes Time.Sub saturate at MinInt64; the code then cannot
+   know the distance.  With a threshold >= 0 that does not matter (the wait is capped anyway).
+   (a) threshold = MinInt64: `Since(t) < MinInt64` is unsatisfiable: emission is permitted although the
+       stamp does not lie MinInt64 in the past; a parallel instance is never reported.
+   (b) MinInt64 < threshold < 0: the decision is exact, the wait is threshold + 2^63, below the capped
+       longest remaining time.
+   Unrepaired (known findings, see design-notes/C21.md). *)
 Definition far_ahead : status :=
   {| peers := 1; now := old_now; startup := long_ago; connected := long_ago; synced := long_ago;
      became := long_ago;
      created := {| sec := 62135596800 + 1790000000 + 9223372038; nsec := 854775808 |};  (* now + 2^63 ns + 2 s *)
      detected := long_ago |}.
+
+Lemma far_ahead_wf : wf_status far_ahead.
+Proof. unfold wf_status, wf_time, far_ahead, old_now, long_ago. cbn. consts. lia. Qed.
+
+Lemma far_ahead_created_in_five : In (created far_ahead) (five far_ahead).
+Proof. cbn. tauto. Qed.
+
+Theorem min_threshold_refuted :
+  exists s, wf_status s /\ ~ may_emit s min64 /\ snd (synced_to_emit s min64) = NoErr.
+Proof.
+  exists far_ahead. split; [exact far_ahead_wf|]. split.
+  - intros [_ [_ H]]. specialize (H _ far_ahead_created_in_five). vm_compute in H. apply H. reflexivity.
+  - vm_compute. reflexivity.
+Qed.
+
+Theorem min_threshold_parallel_refuted :
+  exists s, wf_status s /\ parallel s min64 /\ detect_parallel s min64 = false.
+Proof.
+  exists far_ahead. split; [exact far_ahead_wf|]. split.
+  - unfold parallel. vm_compute. split; [discriminate | reflexivity].
+  - vm_compute. reflexivity.
+Qed.
+
+Theorem negative_threshold_wait_refuted :
+  exists s th, wf_status s /\ min64 < th < 0 /\ peers s <> 0 /\ ns (synced s) <> 0 /\
+               ~ may_emit s th /\ fst (synced_to_emit s th) <> capped (longest s th).
+Proof.
+  exists far_ahead, (-1000000000). split; [exact far_ahead_wf|].
+  split; [consts; lia|]. split; [discriminate|]. split; [vm_compute; discriminate|]. split.
+  - intros [_ [_ H]]. specialize (H _ far_ahead_created_in_five). vm_compute in H. apply H. reflexivity.
+  - vm_compute. discriminate.
+Qed.
+
 Example negative_threshold_wait_is_a_lower_bound :
   synced_to_emit far_ahead (-1000000000) = (9223372035854775808, ErrSelfEventsOngoing) /\
   capped (longest far_ahead (-1000000000)) = max64.
-Proof. split; vm_compute; reflexivity. Qed.
-(* threshold = MinInt64: no Since(t) can be smaller, the guard never fires *)
-Example min_threshold_guard_is_vacuous :
-  synced_to_emit far_ahead min64 = (0, NoErr) /\ elapsed far_ahead (created far_ahead) < min64.
 Proof. split; vm_compute; reflexivity. Qed.
